@@ -47,6 +47,11 @@ def dataframe_to_symbols(table: 'pandas.DataFrame') -> List[Symbol]:  # noqa: F8
         entry['lags'] = convert_to_int_or_none(entry['lags'])
         entry['leads'] = convert_to_int_or_none(entry['leads'])
 
+        # Restore missing values (NaNs in the DataFrame) to `None`
+        for key in ('name', 'equation', 'code'):
+            if not isinstance(entry[key], str):
+                entry[key] = None
+
         symbols.append(Symbol(**entry))
 
     return symbols
